@@ -175,6 +175,28 @@ fn check_case(w: &World, si: usize, seq: &[u8], only: Option<&Vec<(usize, usize)
                 (clean.len() * 10 + ins.len()) as u64,
             ));
         }
+        // the same lines spread over two input files, the first one ending without a line break
+        if let Ok(st) = sut::parse(text) {
+            for cut in 1..noisy.len() {
+                let mut files = sut::files_from(&noisy, &[cut, noisy.len() - cut]);
+                files[0].pop();
+                evals += 1;
+                let got = match sut::run_files(&w.tables, &st, &[files[0].as_slice(), files[1].as_slice()], FileRunOpts::default()) {
+                    Outcome::Ok(fr) if fr.result.is_ok() => Some(fr.printed.clone()),
+                    _ => None,
+                };
+                if got.as_ref() != Some(&base.printed) {
+                    out.push(fail(
+                        format!("noise-visible:two-files:{}", kind),
+                        format!("`{}`: output changes when the lines (with non-admitted lines {:?} inserted at {:?}) are split into two files after line {} and the first file has no final line break", text, ins.iter().map(|(_, n)| noise[*n]).collect::<Vec<_>>(), ins.iter().map(|(p, _)| p).collect::<Vec<_>>(), cut),
+                        json!({"stmt": si, "statement": text, "seq": seq, "clean": clean, "insertions": ins, "noisy": noisy, "driver": "two-files", "cut": cut}),
+                        json!(base.printed),
+                        json!(got),
+                        (clean.len() * 10 + ins.len()) as u64,
+                    ));
+                }
+            }
+        }
         if let Some(bi) = &base_inc {
             evals += 1;
             let gi = incremental(w, text, &noisy);
@@ -262,6 +284,94 @@ fn admission(w: &World) -> (Vec<Failure>, u64) {
     (out, n)
 }
 
+/// generated tables: every ordered choice of 2..3 columns out of {JSON .a, JSON .b, inline regex k} x {-, NOT NULL, DEFAULT}
+/// x a line alphabet; reference: row iff >= 1 column non-NULL (DEFAULT counts) and every NOT NULL column non-NULL
+fn admission_generated() -> (Vec<Failure>, u64) {
+    let mut out = Vec::new();
+    let lines = ["{\"a\":1,\"b\":2,\"k\":\"z\"}", "{\"a\":1}", "{\"b\":2}", "{\"k\":\"z\"}", "{}", "{\"a\":null,\"b\":2}", "{\"a\":\"x\",\"b\":2}", "{\"a\":1,\"k\":\"z\"}", "{\"b\":2,\"k\":\"z\"}", "not json \"k\":\"z\"", "not json", ""];
+    let kinds = ["a", "b", "k"];
+    let mods = ["", " NOT NULL", " DEFAULT"];
+    let mut specs: Vec<Vec<(usize, usize)>> = Vec::new();
+    for x in 0..3 {
+        for y in 0..3 {
+            if x == y {
+                continue;
+            }
+            for mx in 0..3 {
+                for my in 0..3 {
+                    specs.push(vec![(x, mx), (y, my)]);
+                    for z in 0..3 {
+                        if z != x && z != y {
+                            for mz in 0..3 {
+                                specs.push(vec![(x, mx), (y, my), (z, mz)]);
+                            }
+                        }
+                    }
+                }
+            }
+        }
+    }
+    let kre = regex::Regex::new("\"k\":\"([a-z]+)\"").unwrap();
+    let mut n = 0u64;
+    for spec in &specs {
+        let cols: Vec<String> = spec
+            .iter()
+            .map(|(k, m)| {
+                let m_text = match (kinds[*k], mods[*m]) {
+                    ("k", " DEFAULT") => " DEFAULT 'd'".to_string(),
+                    (_, " DEFAULT") => " DEFAULT 7".to_string(),
+                    (_, x) => x.to_string(),
+                };
+                if kinds[*k] == "k" {
+                    format!("'\"k\":\"([a-z]+)\"' => k TEXT{}", m_text)
+                } else {
+                    format!("{{ .{} }} => {} INT{}", kinds[*k], kinds[*k], m_text)
+                }
+            })
+            .collect();
+        let def = format!("CREATE TABLE g({});", cols.join(", "));
+        let tables = match sut::make_tables(&def) {
+            Ok(t) => t,
+            Err(e) => {
+                out.push(fail("admission-generated:definition-rejected".into(), format!("`{}` rejected: {}", def, e), json!({"layer": "admission-generated", "definition": def}), json!("accepted"), json!(e), 0));
+                continue;
+            }
+        };
+        let st = sut::parse("SELECT COUNT(*) FROM g").unwrap();
+        for line in lines {
+            let doc: Option<J> = serde_json::from_str(line).ok();
+            let mut any = false;
+            let mut all_required = true;
+            for (k, m) in spec {
+                let present = if kinds[*k] == "k" { kre.is_match(line) } else { doc.as_ref().and_then(|d| d.get(kinds[*k])).is_some() };
+                let value = if kinds[*k] == "k" { present } else { doc.as_ref().and_then(|d| d.get(kinds[*k])).map(|v| v.is_i64()).unwrap_or(false) };
+                let non_null = value || (!present && mods[*m] == " DEFAULT");
+                any |= non_null;
+                if mods[*m] == " NOT NULL" && !non_null {
+                    all_required = false;
+                }
+            }
+            let expect = any && all_required;
+            n += 1;
+            let got = match sut::run_batch(&tables, &st, &[line]) {
+                Outcome::Ok(tb) => tb.rows.get(0).map(|r| matches!(r[0], sut::RVal::Int(1))).unwrap_or(false),
+                _ => false,
+            };
+            if got != expect {
+                out.push(fail(
+                    format!("admission-generated:{}:{}", spec.iter().map(|(k, m)| format!("{}{}", kinds[*k], mods[*m].replace(' ', "_"))).collect::<Vec<_>>().join(","), if expect { "row-missing" } else { "unexpected-row" }),
+                    format!("line {:?} on `{}`: admitted={} but the rule says {}", line, def, got, expect),
+                    json!({"layer": "admission-generated", "definition": def, "line": line}),
+                    json!(expect),
+                    json!(got),
+                    (def.len() + line.len()) as u64,
+                ));
+            }
+        }
+    }
+    (out, n)
+}
+
 pub fn run(ctx: &Ctx) -> i32 {
     let col = Collector::new();
     let w = world();
@@ -304,6 +414,12 @@ pub fn run(ctx: &Ctx) -> i32 {
         col.fail(f);
     }
     col.layer("admission rule (iff half)", n, true, json!({}));
+    let (fs, n) = admission_generated();
+    col.eval(n);
+    for f in fs {
+        col.fail(f);
+    }
+    col.layer("admission rule (generated tables)", n, true, json!({"columns": "2..3 of {JSON .a, JSON .b, inline regex k} in every order", "modifiers": ["", "NOT NULL", "DEFAULT"], "lines": 12}));
     finish(
         ctx,
         &col,
@@ -322,6 +438,7 @@ pub fn replay(case: &J) -> Vec<Failure> {
     match case["layer"].as_str() {
         Some("joined") => joined_side(&w).0,
         Some("admission") => admission(&w).0,
+        Some("admission-generated") => admission_generated().0.into_iter().filter(|f| f.case == *case).collect(),
         _ => {
             let seq: Vec<u8> = case["seq"].as_array().unwrap().iter().map(|x| x.as_u64().unwrap() as u8).collect();
             let ins: Vec<(usize, usize)> = case["insertions"].as_array().unwrap().iter().map(|p| (p[0].as_u64().unwrap() as usize, p[1].as_u64().unwrap() as usize)).collect();
